@@ -92,3 +92,26 @@ package core
 //@   ensures perr == mangos.ErrBadOption && name == mangos.OptionDialAsynch ==> (isnil(result) <==> is_bool(value))
 //@   ensures perr == mangos.ErrBadOption && (name == mangos.OptionMaxRecvSize || name == mangos.OptionReconnectTime || name == mangos.OptionMaxReconnectTime || name == mangos.OptionDialAsynch) && !isnil(result) ==> result == mangos.ErrBadValue
 //@   ensures perr == mangos.ErrBadOption && name != mangos.OptionMaxRecvSize && name != mangos.OptionReconnectTime && name != mangos.OptionMaxReconnectTime && name != mangos.OptionDialAsynch ==> result == mangos.ErrBadOption
+//@
+//@ func (*dialer).dial
+//@   before call:Dial#1 assert !d.closed && !held(d.Mutex)
+//@   at call:AfterFunc#1 assert timer_d(result) == rtime && held(d.Mutex)
+//@   before call:AfterFunc#1 assert d.reconnMaxTime != 0 ==> d.reconnTime <= d.reconnMaxTime
+//@   before call:AfterFunc#1 assert d.reconnMaxTime == 0 ==> d.reconnTime == rtime
+//@   before call:AfterFunc#1 assert redial && err != mangos.ErrClosed
+//@   ensures isnil(result) ==> evcount("armed") == 0
+//@   before return#3 assert evcount("armed") == 0
+//@
+//@ func (*dialer).pipeConnected
+//@   before call:Unlock#1 assert d.reconnTime == d.reconnMinTime
+//@
+//@ func (*dialer).pipeClosed
+//@   at call:AfterFunc#1 assert timer_d(result) == d.reconnTime && held(d.Mutex)
+//@
+//@ func (*dialer).Dial
+//@   before go:redial#1 assert d.reconnTime == d.reconnMinTime && d.active
+//@
+//@ func (*dialer).Close
+//@   before call:Stop#1 assert d.redialer != nil
+//@   ensures isnil(result) ==> d.closed
+//@   ensures !isnil(result) ==> result == mangos.ErrClosed
